@@ -13,7 +13,7 @@ from ..core import rule, AnalysisError
 from ..engine import rx
 from ..engine.facts import dotted, const, src, walk_func, str_value
 from ..engine import pattern as P
-from .common import calls, pn
+from .common import calls, pn, access_paths
 
 MARKUP = set("&<>\"'")
 
